@@ -14,7 +14,7 @@ import (
 
 // overLimitKinds are batches with more parents than the protocol's 16-bit ids
 // allow. The property says such inputs are refused with an error.
-var overLimitKinds = []string{"spans_with_attrs", "spans_with_events", "spans_with_links", "logs_with_attrs", "metrics", "resources", "scopes"}
+var overLimitKinds = []string{"spans_with_attrs", "spans_with_events", "spans_with_links", "spans_mixed_related", "logs_with_attrs", "metrics", "resources", "scopes"}
 
 const overN = 65537
 
@@ -30,6 +30,25 @@ func overLimitBatch(kind string) *batchIn {
 			sp := ss.AppendEmpty()
 			sp.SetName("s")
 			sp.Attributes().PutInt("i", int64(i))
+		}
+	case "spans_mixed_related":
+		// more than 65,536 spans that need an id, but fewer than 65,536 of each
+		// kind of related data (attributes / events / links)
+		b.signal = "traces"
+		b.td = ptrace.NewTraces()
+		ss := b.td.ResourceSpans().AppendEmpty().ScopeSpans().AppendEmpty().Spans()
+		ss.EnsureCapacity(overN + 2000)
+		for i := 0; i < overN+2000; i++ {
+			sp := ss.AppendEmpty()
+			sp.SetName("s")
+			switch i % 3 {
+			case 0:
+				sp.Attributes().PutInt("i", int64(i))
+			case 1:
+				sp.Events().AppendEmpty().SetName("e")
+			default:
+				sp.Links().AppendEmpty().SetSpanID([8]byte{1})
+			}
 		}
 	case "spans_with_events", "spans_with_links":
 		b.signal = "traces"
@@ -102,9 +121,9 @@ func (r *run) runProducerOnly() {
 	}
 	hp.nBatches = 1 + t.Weighted(core.Gen, 3, 3, 3, 2, 2, 1, 1, 1)
 	hp.ramp = []string{"", "small"}[t.Weighted(core.Gen, 5, 1)]
-	overRate := 150
+	overRate := 60
 	if r.o.Tier == "thorough" {
-		overRate = 400
+		overRate = 200
 	}
 	over := ""
 	if t.Chance(core.Fault, 1, overRate) {
